@@ -329,22 +329,31 @@ def run_cases(ctx, binpath, cases, tag="meta"):
         o = outs[i]
         if o.get("err"):
             raise RuntimeError("harness error on case %d: %s" % (i, o["err"]))
-        terms.append(case_term(c["ops"], o["obs"], c.get("maxchain", 0)))
+        # a panic of the implementation ends the history: the oracle is judged up to and including that step
+        terms.append(case_term(c["ops"][:len(o["obs"])], o["obs"], c.get("maxchain", 0)))
     res = vlib.coq_eval_sharded(ctx, tag, ["Meta.Model", "Meta.Corr"], terms,
-                                lambda l: ["bad_cases 0 %s" % l, "coverage %s" % l], shard=40)
+                                lambda l: ["bad_cases 0 %s" % l, "coverage %s" % l, "model_oracle %s" % l], shard=40)
     bad = []
     cov = [0] * len(cases)
+    morc = [True] * len(cases)
     for off, vals in res:
         for item in vlib.parse_coq_list(vals[0]):
             f = vlib.flat(item)
             bad.append(dict(case=off + f[0], step=f[1], field=f[2], c12=f[3], failstep=f[4]))
         for i, v in enumerate(vlib.parse_coq_list(vals[1])):
             cov[off + i] = v
+        for i, v in enumerate(vlib.parse_coq_list(vals[2])):
+            morc[off + i] = v
+    # the oracle must hold on the model's own trace wherever it holds on the implementation's
+    badidx = {b["case"]: b for b in bad}
+    for i, ok in enumerate(morc):
+        if not ok and (i not in badidx or badidx[i]["c12"]):
+            bad.append(dict(case=i, step=0, field=8, c12=True, failstep=999))
     return bad, cov, outs
 
 
 FIELD = {0: "oracle only", 1: "result", 2: "number of actions", 3: "mode", 4: "Chain()", 5: "ListDisks()", 6: "Info()",
-         7: "directory", 9: "length"}
+         7: "directory", 8: "C12 oracle false on the model's own trace", 9: "length"}
 
 
 # ------------------------------------------------------------------------------------------------ generator
@@ -779,7 +788,10 @@ def run_vcases(ctx, metabin, victim, vcases, tag="v", fail=True, kill=True, work
                     if e["win"] and e["canon"] is not None]
             j = vc["stage"]["j"]
             if [e["canon"] for e in ents] != [t[1:] for t in mtr] or j >= len(ents):
-                raise Unmodelled("staged pre-state: trace of %r differs from the model" % (vc["stage"]["op"],))
+                # the staging operation itself no longer matches the model: run this case from the unstaged directory
+                # and report the difference (the same operation is also a case under test)
+                vc["stage_note"] = "staged pre-state: trace of %r differs from the model" % (vc["stage"]["op"],)
+                continue
             strace_victim(victim, vc["predir"], os.path.join(sd, "dir"), os.path.join(sd, "mk"), opj, os.path.join(sd, "k.trace"),
                           inject="%s:signal=SIGKILL:when=%d" % (ents[j]["name"], ents[j]["ord"]))
             vc["predir"] = os.path.join(sd, "dir")
@@ -834,7 +846,7 @@ def run_vcases(ctx, metabin, victim, vcases, tag="v", fail=True, kill=True, work
                 continue
             if kill:
                 jobs.append((i, j, mi, None, "%s:signal=SIGKILL:when=%d" % (e["name"], e["ord"])))
-            if fail and info["trace_ok"]:
+            if fail:
                 en = ERRNO_OF_TAG[e["canon"][0]]
                 jobs.append((i, j, mi, en, "%s:error=%s:when=%d" % (e["name"], en, e["ord"])))
 
@@ -877,7 +889,7 @@ def eval_vcases(ctx, vcases, results, tag="ve"):
 
     def one(arg):
         i, (vc, info) = arg
-        if not info["trace_ok"] or not info["runs"]:
+        if not info["runs"]:
             return
         tb, univ = vc["tb"], vc["univ"]
         # pre = the kill before the first call of the window; post = the complete run
@@ -891,14 +903,23 @@ def eval_vcases(ctx, vcases, results, tag="ve"):
         for r in info["runs"]:
             dterm, oterm = reopen_term(r["obs"], univ, tb)
             cls = {"ok": "COk", "err": "CErr"}.get(r["res"]["res"], "CDied")
-            xs.append("mkvrun %d %s %s (%s) (%s)" % (r["mi"], "(Some %s)" % r["errno"] if r["errno"] else "None", cls, dterm, oterm))
+            xs.append("mkvrun %d %s %s (%s) (%s)" % (r["mi"] if r["mi"] is not None else 0,
+                                                       "(Some %s)" % r["errno"] if r["errno"] else "None", cls, dterm, oterm))
         defs = "Definition v := %s.\nDefinition ipre := %s.\nDefinition ipost := %s.\nDefinition xs := [\n%s\n].\n" % (
             vc["term"], ipre, ipost, ";\n".join(xs))
-        vals = vlib.coq_eval(ctx, "%s_%d" % (tag, i), ["Meta.Model", "Meta.Corr"], defs, ["check_vcase v ipre ipost xs"])
-        rows = vlib.parse_coq_list(vals[0])
-        for r, row in zip(info["runs"], rows):
-            f = vlib.flat(row)
-            r.update(ddiff=f[1], odiff=f[2], res_agree=f[3], oracle=f[4], strict=f[5], mside=f[6], iside=f[7])
+        if info["trace_ok"]:
+            vals = vlib.coq_eval(ctx, "%s_%d" % (tag, i), ["Meta.Model", "Meta.Corr"], defs, ["check_vcase v ipre ipost xs"])
+            rows = vlib.parse_coq_list(vals[0])
+            for r, row in zip(info["runs"], rows):
+                f = vlib.flat(row)
+                r.update(ddiff=f[1], odiff=f[2], res_agree=f[3], oracle=f[4], strict=f[5], mside=f[6], iside=f[7])
+        else:
+            # the operation's system calls differ from the model's: the model cannot be aligned call by call, but the
+            # oracles are predicates on the implementation's own observations
+            vals = vlib.coq_eval(ctx, "%s_%d" % (tag, i), ["Meta.Model", "Meta.Corr"], defs, ["oracle_only ipre ipost xs"])
+            rows = vlib.parse_coq_list(vals[0])
+            for r, row in zip(info["runs"], rows):
+                r.update(ddiff=None, odiff=None, res_agree=None, oracle=row, strict=row, mside=None, iside=None)
         info["evaluated"] = True
 
     with cf.ThreadPoolExecutor(max_workers=12) as ex:
